@@ -65,6 +65,7 @@ func vfGenC16(t *rapid.T) vfC16Case {
 	c.Cont = rapid.Bool().Draw(t, "cont")
 	nreq := rapid.IntRange(1, 4).Draw(t, "nreq")
 	hasRec := false
+	_ = hasRec
 	for i := 0; i < nreq; i++ {
 		var s []vfRq
 		for j := rapid.IntRange(1, 8).Draw(t, "len"); j > 0; j-- {
@@ -88,9 +89,7 @@ func vfGenC16(t *rapid.T) vfC16Case {
 		cn := vfC16Conn{}
 		n := rapid.IntRange(3, 40).Draw(t, "nframes")
 		for j := 0; j < n; j++ {
-			// a test recording and a motion recording starting on the same frame would be named by the same
-			// millisecond (see DESIGN.md O1): streams with test-recording requests carry no motion
-			cn.Frames = append(cn.Frames, !hasRec && rapid.IntRange(0, 2).Draw(t, "m") == 0)
+			cn.Frames = append(cn.Frames, rapid.IntRange(0, 2).Draw(t, "m") == 0)
 		}
 		if rapid.IntRange(0, 2).Draw(t, "clear") == 0 {
 			cn.Clears = append(cn.Clears, rapid.IntRange(0, n).Draw(t, "clearat"))
